@@ -15,6 +15,6 @@ static void Mutex__unlock(struct Mutex *m);
 static void CondVar__ctor_default(struct CondVar *c);
 static void CondVar__notify_all(struct CondVar *c);
 static void CondVar__notify_one(struct CondVar *c);
-static void CondVar__wait(struct CondVar *c, struct ULock *l, struct closure_Res__lock_1 *pred);
+static void CondVar__wait(struct CondVar *c, struct ULock *l, struct closure_Res__lock_1 pred);
 static void ULock__ctor__Mutex_ref(struct ULock *l, struct Mutex *m);
 static void ULock__dtor(struct ULock *l);
